@@ -22,6 +22,7 @@ type vnOp struct {
 	DNS  bool   `json:"dns"`
 	Ms   int    `json:"ms"`
 	Fail bool   `json:"fail"` // write: the outbound socket refuses the send
+	FailRelay bool `json:"fail_relay"` // reply: sending it on to the client fails (datagram too large for the client's path, ...)
 	Hold bool   `json:"hold"` // reply: the relay to the client is still in progress while the next operation (a write) happens
 }
 
@@ -154,10 +155,12 @@ func (c *vnFakeConn) SetReadDeadline(t time.Time) error {
 // vnClientConn is the client-facing socket: counts relayed replies.
 type vnClientConn struct {
 	net.PacketConn
-	mu      sync.Mutex
-	n       int
-	hold    chan struct{} // non-nil: the next WriteTo blocks until it is closed
-	entered chan struct{}
+	mu       sync.Mutex
+	n        int // relayed
+	attempts int // WriteTo calls
+	failNext bool
+	hold     chan struct{} // non-nil: the next WriteTo blocks until it is closed
+	entered  chan struct{}
 }
 
 func (c *vnClientConn) WriteTo(p []byte, addr net.Addr) (int, error) {
@@ -170,8 +173,13 @@ func (c *vnClientConn) WriteTo(p []byte, addr net.Addr) (int, error) {
 		<-hold
 	}
 	c.mu.Lock()
+	defer c.mu.Unlock()
+	c.attempts++
+	if c.failNext {
+		c.failNext = false
+		return 0, errors.New("sendmsg: message too long")
+	}
 	c.n++
-	c.mu.Unlock()
 	return len(p), nil
 }
 
@@ -230,9 +238,12 @@ func vnRun(req vnReq) (resp vnResp) {
 			if op.DNS {
 				from = dnsAddr
 			}
-			before := cc.count()
+			before := cc.tried()
+			cc.mu.Lock()
+			cc.failNext = op.FailRelay
+			cc.mu.Unlock()
 			relayed := func() {
-				for t := time.Now(); cc.count() == before && time.Since(t) < 2*time.Second; {
+				for t := time.Now(); cc.tried() == before && time.Since(t) < 2*time.Second; {
 					time.Sleep(20 * time.Microsecond)
 				}
 			}
@@ -319,6 +330,12 @@ func vnRun(req vnReq) (resp vnResp) {
 	resp.Replies = cc.count()
 	resp.OK = true
 	return resp
+}
+
+func (c *vnClientConn) tried() int {
+	c.mu.Lock()
+	defer c.mu.Unlock()
+	return c.attempts
 }
 
 func (c *vnClientConn) count() int {
